@@ -177,7 +177,8 @@ Finish(name, res, p2, n2, s2, k2, pr, dl, clean, cn) ==
         f == IF dl > 0 THEN wire[dl] ELSE JunkFrame(Tag)
         \* delivered bytes are the next genuine ones iff the frame is the peer's payload at position `good`
         nextgen == dl > 0 /\ f.ses = pr /\ f.k \in {"py", "rq2"} /\ f.lo = good /\ ~f.flip /\ ~f.cut
-        lat == Latch /\ ~okc /\ res # "fallback"
+        \* a failure is final once a cipher exists (a refusal before that consumed nothing that was decrypted)
+        lat == Latch /\ ~okc /\ res # "fallback" /\ s2 # "hs"
     IN
     /\ pos' = p2 /\ rN' = n2 /\ sk' = k2 /\ peer' = pr
     /\ stage' = IF lat THEN "dead" ELSE s2
